@@ -66,17 +66,30 @@ PROJECTS = {
     'intersphinx_like': (dict(site.PROJECT_B), ['--project-name', 'proj', '--html-viewsource-base', 'http://example.org/src', '--project-url', 'http://example.org',
                                                 '--privacy', 'HIDDEN:pk.mod.Hid', '--privacy', 'PRIVATE:pk.sub'], 'with_base'),
     'buildtime_option': (dict(site.PROJECT_B), ['--project-name', 'proj', '--buildtime', '2020-02-02 02:02:02', '--theme', 'readthedocs'], 'no_epoch'),
+    # the epoch itself is a valid value of SOURCE_DATE_EPOCH
+    'epoch_zero': ({'ez.py': '"""Module."""\nclass K:\n    "doc"\n'}, ['--project-name', 'ez'], 'epoch0'),
+    # interfaces that reach a class only through its bases, several of them declaring the method the class overrides without a docstring
+    'zope_inherited_interfaces': ({'st/__init__.py': '"""Streams."""\n',
+                                   'st/ifaces.py': 'from zope.interface import Interface\n' + ''.join(
+                                       f'class I{n}(Interface):\n    "Interface {n}."\n    def close():\n        "Close as {n} does."\n    def only_{n.lower()}():\n        "doc"\n'
+                                       for n in ('Reader', 'Writer', 'Seekable', 'Pollable', 'Lockable', 'Mappable')),
+                                   'st/impl.py': 'from zope.interface import implementer\nfrom st.ifaces import *\n' + ''.join(
+                                       f'@implementer(I{n})\nclass {n}:\n    "Implements {n}."\n' for n in ('Reader', 'Writer', 'Seekable', 'Pollable', 'Lockable', 'Mappable'))
+                                       + 'class Pipe(Reader, Writer, Seekable, Pollable, Lockable, Mappable):\n    "All of them, inherited."\n    def close(self):\n        pass\n'
+                                       + 'class Half(Mappable, Lockable, Pollable):\n    def close(self):\n        pass\n'},
+                                  ['--project-name', 'st'], None),
 }
 
 
 def _cases(tier, seed):
     names = list(PROJECTS)
     if tier == 'quick':
-        names = ['single_root_unnamed', 'two_roots_unnamed', 'three_roots_named', 'zope_and_subclasses', 'docstring_errors', 'buildtime_option', 'case_pairs']
+        names = ['single_root_unnamed', 'two_roots_unnamed', 'three_roots_named', 'zope_and_subclasses', 'docstring_errors', 'buildtime_option', 'case_pairs',
+                 'epoch_zero', 'zope_inherited_interfaces']
     for n in names:
         yield {'project': n}
     if tier == 'thorough':
-        for n in ('two_roots_unnamed', 'many_modules', 'zope_and_subclasses'):
+        for n in ('two_roots_unnamed', 'many_modules', 'zope_and_subclasses', 'zope_inherited_interfaces'):
             for s in (5, 11, 123, 4242):
                 yield {'project': n, 'seed_b': s}
 
@@ -87,7 +100,7 @@ def _run(src, out, argv, roots, seed, reverse=False, epoch=True):
     if reverse:
         env['C18_REVERSE'] = '1'
     if epoch:
-        env['SOURCE_DATE_EPOCH'] = '1600000000'
+        env['SOURCE_DATE_EPOCH'] = '0' if epoch == 'zero' else '1600000000'
     else:
         env.pop('SOURCE_DATE_EPOCH', None)
     cmd = [sys.executable, '-c', CHILD, '--html-output', out, '--quiet', *argv] + [os.path.join(src, r) for r in roots]
@@ -124,7 +137,7 @@ def _check(case):
         argv = list(argv)
         if mode == 'with_base':
             argv += ['--project-base-dir', src]
-        epoch = mode != 'no_epoch'
+        epoch = 'zero' if mode == 'epoch0' else mode != 'no_epoch'
         runs = [('A', 1, False, 'outA'), ('B', case.get('seed_b', 2), False, 'outB'), ('C', 77, True, 'outC')]
         fails = []
         rcs = {}
@@ -157,7 +170,7 @@ HARNESS = {
     f'{D}:get_system': {'cases': _cases, 'check': _check,
         'covers': [f'{D}:make', f'{M}:System.addPackage', f'{M}:System.root_names', 'pydoctor/templatewriter/util.py:objects_order',
                    'pydoctor/templatewriter/summary.py:_lckey', 'pydoctor/templatewriter/writer.py:TemplateWriter.writeSummaryPages'],
-        'bound': '7 (10) projects (one/two/three roots, with and without --project-name, 23 cross-importing modules, zope interfaces with 12 implementers, '
+        'bound': '9 (12) projects (one/two/three roots, with and without --project-name, 23 cross-importing modules, zope interfaces with 12 implementers, '
                  'reported docstring errors, source links, --buildtime) x {hash seed 1, hash seed 2, hash seed 77 with reversed directory listings, reused '
                  'output directory}; fresh interpreter per run; sha256 of every written file',
         'budget_s': {'quick': 400, 'thorough': 2400}},
